@@ -129,7 +129,7 @@ Step(S, cs, i, D, glo, ghi, dv) ==
         ELSE UNION {IF c.opt /\ ext(x) = {}
                     \* deviation: the one solution of a binding-free prefix (the empty row) does not
                     \* exist in the table, so an unmatched OPTIONAL clause after it yields nothing
-                    THEN (IF "rows-without-bindings-dropped" \in dv /\ DOMAIN x.a = {} THEN {} ELSE {nul(x)})
+                    THEN (IF "rows-without-bindings-dropped" \in dv /\ DOMAIN x.a = {} /\ ClauseNames(c) # {} THEN {} ELSE {nul(x)})
                     ELSE ext(x) : x \in S}
 
 RECURSIVE Fold(_, _, _, _, _, _, _)
